@@ -380,12 +380,12 @@ def judge_output(reqs, out, part, case, where):
     """O1-O4 on the output of one execution.  Returns the list of reply lines (raw bytes) per request or None"""
     lines, unterminated = read_output(out)
     if unterminated:
-        part.violation(f'C07:O1:{where}:output-does-not-end-with-LF', case, f'output {out[-80:]!r}')
+        part.violation(f'C07:O1:output-does-not-end-with-LF', case, f'output {out[-80:]!r}')
         return None
     bad = [e for e in lines if e[1] is None]
     if bad:
         first = reqs[0].cls() if reqs else 'no-request'
-        part.violation(f'C07:O1:{where}:emitted-line-{bad[0][2]}:{first}', case,
+        part.violation(f'C07:O1:emitted-line-{bad[0][2]}:{first}', case,
                        f'requests {[r.raw[:60] for r in reqs]!r}: emitted line {bad[0][0][:200]!r} is {bad[0][2]}')
         return None
     replies = []
@@ -400,7 +400,7 @@ def judge_output(reqs, out, part, case, where):
     if len(replies) != len(reqs):
         how = 'fewer' if len(replies) < len(reqs) else 'more'
         rc = reqs[0].cls() if reqs else 'only-a-partial-line'
-        part.violation(f'C07:O2:{where}:{how}-replies-than-request-lines:{rc}', case,
+        part.violation(f'C07:O2:{how}-replies-than-request-lines:{rc}', case,
                        f'{len(reqs)} request lines {[r.raw[:60] for r in reqs]!r} got {len(replies)} replies '
                        f'{[e[0][:80] for e in replies]!r} (+{nev} events)')
         return None
@@ -409,31 +409,31 @@ def judge_output(reqs, out, part, case, where):
         iserr = a.startswith(ERRORPREFIX) and a not in REQUEST2REPLY.values()
         if allowed is None:
             if not iserr:
-                part.violation(f'C07:O3:{where}:{req.cls()}:answered-with-{norm(a)}', case,
+                part.violation(f'C07:O3:{req.cls()}:answered-with-{norm(a)}', case,
                                f'request {req.raw[:80]!r} (action is not UTF-8) answered {raw[:120]!r}, expected error_...')
                 continue
         elif a not in allowed:
-            part.violation(f'C07:O3:{where}:{req.cls()}:answered-with-{"error_other" if iserr else norm(a)}', case,
+            part.violation(f'C07:O3:{req.cls()}:answered-with-{"error_other" if iserr else norm(a)}', case,
                            f'request {req.raw[:80]!r} answered {raw[:120]!r}, expected one of {sorted(allowed)}')
             continue
         if a == IDENTREPLY:
             if s or d is not None:
-                part.violation(f'C07:O3:{where}:{req.cls()}:ident-reply-with-extra-fields', case,
+                part.violation(f'C07:O3:{req.cls()}:ident-reply-with-extra-fields', case,
                                f'request {req.raw[:80]!r} answered {raw[:120]!r}')
             part.outcomes['ident'] += 1
             continue
         if iserr:
             if not (isinstance(d, list) and len(d) == 3 and isinstance(d[0], str) and isinstance(d[1], str)
                     and isinstance(d[2], dict)):
-                part.violation(f'C07:O4:{where}:{req.cls()}:malformed-error-report', case,
+                part.violation(f'C07:O4:{req.cls()}:malformed-error-report', case,
                                f'request {req.raw[:80]!r} answered {raw[:160]!r}: not [name, text, {{}}]')
                 continue
             if d[0] not in ERRNAMES:
-                part.violation(f'C07:O4:{where}:{req.cls()}:error-class-{norm(d[0])}-not-registered', case,
+                part.violation(f'C07:O4:{req.cls()}:error-class-{norm(d[0])}-not-registered', case,
                                f'request {req.raw[:80]!r} answered {raw[:160]!r}')
                 continue
             if req.decodes and s not in req.specs:
-                part.violation(f'C07:O4:{where}:{req.cls()}:specifier-not-echoed', case,
+                part.violation(f'C07:O4:{req.cls()}:specifier-not-echoed', case,
                                f'request {req.raw[:80]!r} answered {raw[:160]!r}: specifier {s!r}, expected '
                                f'{" or ".join(repr(x) for x in req.specs)}')
                 continue
@@ -450,7 +450,7 @@ def judge_run(run, reqs, part, case, where):
     part.traces += 1
     for p in run.problems:
         rc = reqs[0].cls() if reqs else 'only-a-partial-line'
-        part.violation(f'C07:O5:{where}:{p}:{rc}', case,
+        part.violation(f'C07:O5:{p}:{rc}', case,
                        f'requests {[r.raw[:60] for r in reqs]!r}: {p}; output {run.out[-160:]!r}')
     return judge_output(reqs, run.out, part, case, where)
 
@@ -602,6 +602,8 @@ def base_lines():
 
 CORE = ('ident', 'describe', 'activate', 'deactivate-m', 'ping-x', 'read-value', 'change-target', 'change-s', 'do',
         'logging-m', 'help', 'read-nomodule')
+QUICK_PROBES = ('ident', 'activate', 'ping-x', 'read-value', 'read-target', 'read-s', 'change-target', 'do', 'logging-m',
+                'empty', 'read-noparam')
 PROBES = ('ident', 'describe', 'activate', 'activate-m', 'deactivate', 'ping-x', 'read-m', 'read-value', 'read-target',
           'read-s', 'read-status', 'change-m', 'change-target', 'change-s', 'change-poll', 'do', 'logging-m', 'logging-off',
           'empty', 'help', 'read-noparam', 'change-readonly', 'do-range', 'change-badtype')
@@ -758,7 +760,7 @@ def catalogue(tier):
 
 def probe_indices(tier):
     cat = catalogue(tier).v
-    names = {'base:' + n for n in PROBES}
+    names = {'base:' + n for n in (QUICK_PROBES if tier == 'quick' else PROBES)}
     return [i for i, (tag, _l) in enumerate(cat) if tag in names]
 
 
@@ -814,7 +816,7 @@ def check_stream(rig, stream, part, where, solo=None):
     run2 = rig.run([stream] if stream else [], watch=True)
     part.traces += 1
     if run2.out != run.out or run2.problems != run.problems:
-        part.violation(f'C07:O8:{where}:output-changes-when-another-connection-is-active:{reqs[0].cls() if reqs else ""}',
+        part.violation(f'C07:O8:output-changes-when-another-connection-is-active:{reqs[0].cls() if reqs else ""}',
                        case, f'stream {stream[:120]!r}: alone {run.out[:200]!r}, with an activated second connection '
                        f'{run2.out[:200]!r}')
     if replies is not None and solo is not None:
@@ -822,7 +824,7 @@ def check_stream(rig, stream, part, where, solo=None):
         if lines and all(garb):
             part.outcomes['watcher:garbage-only-stream'] += 1
             if run2.conn2:
-                part.violation(f'C07:O8:{where}:second-connection-receives-{norm(run2.conn2[0][0])}:{reqs[0].cls()}', case,
+                part.violation(f'C07:O8:second-connection-receives-{norm(run2.conn2[0][0])}:{reqs[0].cls()}', case,
                                f'stream {stream[:120]!r} (every line refused) made another, activated connection receive '
                                f'{run2.conn2[:3]!r}')
         elif run2.conn2:
@@ -839,26 +841,37 @@ def check_stream(rig, stream, part, where, solo=None):
                 if replies[i] != alone:
                     pos = 'after' if i == len(lines) - 1 else 'before' if i == 0 else 'between'
                     gi = 0 if i else 1
-                    part.violation(f'C07:O7:{where}:answer-changes-{pos}-garbage:{reqs[i].cls()}:next-to:{reqs[gi].cls()}',
+                    part.violation(f'C07:O7:answer-changes-{pos}-garbage:{reqs[i].cls()}:next-to:{reqs[gi].cls()}',
                                    case, f'line {l[:80]!r} alone -> {alone[:160]!r}; in {[x[:60] for x in lines]!r} -> '
                                    f'{replies[i][:160]!r}')
     return run.out
 
 
-def line_segs(stream, tier):
-    """segmentations for a one-line stream"""
+def line_segs(stream, tier, full=False):
+    """segmentations for a one-line stream: every single cut; all pairs of cuts when `full` (base lines; every line up to
+    64 bytes in the thorough tier), else pairs from the offsets next to both ends, the middle, every LF and every 1024
+    boundary; one-byte chunks; timeouts in the gaps of the single cuts"""
     n = len(stream)
     lim = 64 if tier == 'quick' else 160
+    special = set(newline_positions(stream, 2)) | {c for c in (1, 2, n // 2, n - 3) if 0 < c < n}
     if n <= lim:
-        pos = range(1, n)
+        singles = list(range(1, n))
     else:
-        pos = sorted(set(newline_positions(stream, 3)) | {1, 2, n // 2} | set(range(1, min(n, 12))))
-    for cuts in le2_cutsets(pos):
-        yield cuts, ()
-        if len(cuts) <= 1 or n <= 24:
-            for g in range(len(cuts) + 2):
-                yield cuts, (g,)
-            yield cuts, 'all'
+        singles = sorted(special | set(range(1, 12)))
+    pairpos = singles if (full and n <= lim) else sorted(special)
+    if len(pairpos) > 24:
+        pairpos = sorted(set(newline_positions(stream, 1)) | {1, n // 2})
+    yield (), ()
+    yield (), 'all'
+    for c in singles:
+        yield (c,), ()
+        yield (c,), (1,)
+    for c in sorted(special):
+        yield (c,), 'all'
+        yield (c,), (0,)
+        yield (c,), (2,)
+    for a, b in itertools.combinations(pairpos, 2):
+        yield (a, b), ()
     if n > 3:
         yield tuple(range(1, n)), ()
         if n <= 200:
@@ -866,15 +879,20 @@ def line_segs(stream, tier):
 
 
 def pair_segs(stream, tier):
+    """segmentations for a stream of several lines: single cuts next to every LF, pairs of them, a timeout at each LF,
+    one-byte chunks"""
     radius = 1 if tier == 'quick' else 2
-    pos = newline_positions(stream, radius)
     n = len(stream)
-    for cuts in le2_cutsets(pos):
-        yield cuts, ()
-    nl = [i + 1 for i in range(n) if stream[i:i + 1] == LF and i + 1 < n]
-    for c in nl:
+    pos = newline_positions(stream, radius)
+    if len(pos) > 16:
+        pos = newline_positions(stream, 1)
+    for c in pos:
+        yield (c,), ()
+    for a, b in itertools.combinations(pos, 2):
+        if tier != 'quick' or b - a > 2 * radius:      # quick: only pairs around different LFs
+            yield (a, b), ()
+    for c in (i + 1 for i in range(n - 1) if stream[i:i + 1] == LF):
         yield (c,), (1,)
-        yield (c,), 'all'
     if n <= 400:
         yield tuple(range(1, n)), ()
 
@@ -899,7 +917,8 @@ def shard_lines(shard):
                 base = check_stream(rig, stream, part, 'one-line' if not tail else 'line+partial', solo)
                 if part.states % 97 == 1:
                     part.sample({'stream': repr(stream[:80]), 'bytes': len(stream), 'tag': tag, 'output': repr(base[:120])})
-                segs = line_segs(stream, tier) if not tail else pair_segs(stream, tier)
+                segs = line_segs(stream, tier, full=tag.startswith('base:') or tier == 'thorough') if not tail \
+                    else pair_segs(stream, tier)
                 explore_segmentations(rig, stream, base, segs, part, {'sub': 'stream', 'stream': hexs(stream),
                                                                        'where': 'one-line'})
     finally:
